@@ -185,6 +185,22 @@ def Json.beqFields : List (String × Json) → List (String × Json) → Bool
   | _, _ => false
 end
 
+mutual
+/-- values JSON can carry without loss: no timestamp/duration (they become plain numbers), floats finite -/
+def Value.plain : Value → Bool
+  | .null | .bool _ | .int _ | .str _ => true
+  | .float f => f.isFinite
+  | .timestamp _ | .duration _ => false
+  | .array xs => Value.plainList xs
+  | .map kvs => Value.plainFields kvs
+def Value.plainList : List Value → Bool
+  | [] => true
+  | x :: xs => x.plain && Value.plainList xs
+def Value.plainFields : List (String × Value) → Bool
+  | [] => true
+  | (_, v) :: kvs => v.plain && Value.plainFields kvs
+end
+
 /-! ## events -/
 
 /-- `Event { event_type, data: IndexMap }` as far as the handlers build it -/
